@@ -152,7 +152,39 @@ class _Lower(ast.NodeTransformer):
         return node  # nested defs untouched
 
 
-def lower_method(cls, name, yield_attrs, sub=(), idle_attrs=()):
+def _helper_calls(fdef):
+    """names m of calls `self.m(...)` / `cls.m(...)` inside a function"""
+    out = []
+    for n in ast.walk(fdef):
+        if (isinstance(n, ast.Call) and isinstance(n.func, ast.Attribute) and isinstance(n.func.value, ast.Name)
+                and n.func.value.id in ("self", "cls")):
+            out.append(n.func.attr)
+    return out
+
+
+def _has_points(cls, name, yield_attrs, idle_attrs, seen):
+    """does method `name` of cls (or a helper it calls, transitively) contain an operation on shared state?"""
+    if name in seen:
+        return False
+    seen.add(name)
+    raw = cls.__dict__.get(name)
+    fn = getattr(raw, "__func__", raw)
+    if not inspect.isfunction(fn):
+        return False
+    fdef = ast.parse(textwrap.dedent(inspect.getsource(fn))).body[0]
+    lw = _Lower(yield_attrs, (), idle_attrs)
+    for n in ast.walk(fdef):
+        if isinstance(n, ast.Call) and any(a in lw.yield_attrs for a in lw._calls_in(n)):
+            return True
+    return any(_has_points(cls, m, yield_attrs, idle_attrs, seen) for m in _helper_calls(fdef))
+
+
+def lower_method(cls, name, yield_attrs, sub=(), idle_attrs=(), _depth=0):
+    """Lower cls.name into cls._co_name.  Helper methods of the same class that the method calls as self.m(...) and that themselves
+    (transitively) operate on shared state are lowered too and called with `yield from` - so a refactoring that moves such operations
+    into a helper keeps its preemption points.  Returns the number of points inserted (helpers included)."""
+    raw = cls.__dict__.get(name, None)
+    is_static = isinstance(raw, staticmethod)
     fn = getattr(cls, name)
     fn = getattr(fn, "__func__", fn)
     src = textwrap.dedent(inspect.getsource(fn))
@@ -160,6 +192,15 @@ def lower_method(cls, name, yield_attrs, sub=(), idle_attrs=()):
     fdef = tree.body[0]
     assert isinstance(fdef, ast.FunctionDef), "not a function"
     fdef.decorator_list = []
+    sub = set(sub)
+    extra_points = 0
+    if _depth < 3:
+        for m in dict.fromkeys(_helper_calls(fdef)):
+            if m == name or m in sub or m not in cls.__dict__:
+                continue
+            if _has_points(cls, m, yield_attrs, idle_attrs, set()):
+                extra_points += lower_method(cls, m, yield_attrs, (), idle_attrs, _depth + 1)
+                sub.add(m)
     lw = _Lower(yield_attrs, sub, idle_attrs)
     lw.visit_FunctionDef(fdef)
     fdef.name = "_co_" + name
@@ -171,5 +212,5 @@ def lower_method(cls, name, yield_attrs, sub=(), idle_attrs=()):
     code = compile(tree, inspect.getsourcefile(fn) or "<lowered>", "exec")
     exec(code, mod.__dict__, ns)  # noqa: S102
     gen = ns["_co_" + name]
-    setattr(cls, "_co_" + name, gen)
-    return lw.points
+    setattr(cls, "_co_" + name, staticmethod(gen) if is_static else gen)
+    return lw.points + extra_points
